@@ -554,7 +554,17 @@ func recursionC19(c *Ctx) {
 		ast.Inspect(cd.Body, func(nd ast.Node) bool {
 			if cl, ok := nd.(*ast.CompositeLit); ok && p.TypeStr(p.Info.TypeOf(cl)) == "ExecutionPrivilege" {
 				e := p.privElem(cl)
-				if e.privilege == "WritePrivilege" && strings.HasSuffix(e.name, ".Target.Measurement.Database") {
+				name := e.name
+				// a local holding the database name
+				ast.Inspect(cd.Body, func(m ast.Node) bool {
+					if as, ok := m.(*ast.AssignStmt); ok && as.Tok == token.DEFINE && len(as.Lhs) == 1 && len(as.Rhs) == 1 {
+						if id, ok := as.Lhs[0].(*ast.Ident); ok && id.Name == name {
+							name = types.ExprString(as.Rhs[0])
+						}
+					}
+					return true
+				})
+				if e.privilege == "WritePrivilege" && strings.HasSuffix(name, ".Target.Measurement.Database") {
 					write = true
 				}
 			}
